@@ -8,7 +8,7 @@ under RANDOM choice lists against the pool scheduler's own prediction, and compa
 directly with the invocations the IMPLEMENTATION logged for the same call on 1 and several threads."""
 import vlib, simcase, simgen, simcheck
 
-TRUSTED = ["schedule independence is proved for the pool abstraction (any message type, any content-only reaction) and, by the refinement c04_net_run_is_pool_schedule, for the net model of Sim.v on plain benches (scripts made of sends and queries, every model added, no cancelled key); scripts that schedule, cancel or panic and benches with orphan / dropped models are outside the theorem (their schedule independence stays a compared-executors check); the step from the net model to the real executors is the bench correspondence"]
+TRUSTED = ["schedule independence is proved for the pool abstraction (any message type, any content-only reaction) and, by the refinement c04_net_run_is_pool_schedule, for the net model of Sim.v on plain benches (scripts made of sends, queries and scheduling requests, every model added, no cancelled key); scripts that cancel or panic and benches with orphan / dropped models are outside the theorem (their schedule independence stays a compared-executors check); the step from the net model to the real executors is the bench correspondence"]
 
 WHY = {"1": "hypothesis NInv does not hold at the start of the call", "2": "a call returned Ok with a non-empty pool",
        "3": "the pool scheduler ran out of fuel", "4": "the net model's log is not the multiset the pool scheduler predicts"}
@@ -19,18 +19,32 @@ def strip_time(e):
     return ":".join(p[:-1])
 
 
+def with_sched(rng, c):
+    """handlers that also schedule events (one-shot, keyed, periodic; never cancelled): a request adds to the
+    scheduler queue and sends nothing in the current call, so the bench stays in the plain fragment"""
+    for m in c["models"]:
+        for h in m["handlers"]:
+            if rng.random() < 0.3:
+                h.insert(rng.randrange(len(h) + 1),
+                         ("sch", ("r", rng.choice([5, 10, 25])), rng.randrange(3), rng.choice(["in", ("ip", 1)]),
+                          rng.choice([None, None, 0, 1]), rng.choice([None, None, None, 7])))
+    c["tags"] = set(c.get("tags", ())) | {"conf-sched"}
+    return c
+
+
 def run(rep, tier, rng, model_ok):
     if not model_ok:
         return
     q = tier == "quick"
     cases = [simgen.gen_net(rng, hier=(rng.random() < 0.3)) for _ in range(200 if q else 5000)]
+    cases = [with_sched(rng, c) if i % 2 else c for i, c in enumerate(cases)]
     bugs = simcheck.current_bugs()
     chs = [([rng.randrange(97) for _ in range(80)], [[rng.randrange(97) for _ in range(80)] for _ in c["cmds"]]) for c in cases]
     clines = ["conf" + simcase.render(c, bugs=bugs, choices=ch)[3:] for c, ch in zip(cases, chs)]
     couts = vlib.run_model(clines)
     threads = (1, 4) if q else (1, 2, 4, 8)
     impl = {th: simcheck.run_impl([simcase.render(c, bugs=bugs, threads=th) for c in cases]) for th in threads}
-    st = {"benches": len(cases), "calls_checked": 0, "calls_na": 0, "model_bad": 0, "impl_mismatch": 0,
+    st = {"benches": len(cases), "benches_with_scheduling_handlers": sum(1 for c in cases if "conf-sched" in c.get("tags", ())), "calls_checked": 0, "calls_na": 0, "model_bad": 0, "impl_mismatch": 0,
           "invocations_predicted": 0, "threads": list(threads), "max_invocations_in_one_call": 0}
     bad_m, bad_i = [], []
     for ci, (c, cl, co) in enumerate(zip(cases, clines, couts)):
